@@ -82,6 +82,7 @@ type FnCtx struct {
 	usedInlined map[string]bool
 	hasUnknownCall bool
 	lastEvalErr string
+	inInit bool
 }
 
 func (x *FnCtx) abstracted(what string) { x.abstr[what]++ }
@@ -132,7 +133,7 @@ func (x *FnCtx) freshOf(name string, t types.Type) Value {
 func (x *FnCtx) addOb(kind, name string, st *State, goal *Term, optional bool, human string) {
 	tb := x.tb
 	ob := &Obligation{Name: name, Kind: kind, Optional: optional, Goal: human, fn: x}
-	neg := tb.Not(goal)
+	neg := tb.negSk(goal)
 	if neg.IsFalse() || st.pc.IsFalse() {
 		ob.Trivial = true
 		ob.Status = "discharged"
@@ -405,6 +406,14 @@ func (x *FnCtx) loadGlobal(st *State, g *ssa.Global, et types.Type) Value {
 	// error sentinels and other never-assigned globals are constants
 	if c, ok := x.eng.constGlobal(x, g); ok {
 		return c
+	}
+	if x.inInit && g.Name() == "init$guard" {
+		return x.tb.False()
+	}
+	if !x.inInit {
+		if v, ok := x.immutableGlobal(g, et); ok {
+			return v
+		}
 	}
 	name := "G." + g.Pkg.Pkg.Path() + "." + g.Name()
 	if _, ok := et.Underlying().(*types.Slice); ok {
